@@ -906,6 +906,11 @@ pub fn parse_with(img: &Store, g: Geo) -> Result<Parsed, String> {
         }
         if !p.owner.contains_key(&c) {
             lost.push(c);
+            // chains that no entry refers to (yet: a file being written keeps its first cluster in memory until flush)
+            // obey the same rule as the others: an allocated entry never links to a free cluster
+            if v >= 2 && v <= g.max_cluster() && v < g.eoc_min() && fat_val(img, &g, v) == 0 {
+                p.findings.push(fnd("chain-link-to-free", format!("cluster {} (on a chain no entry refers to) links to cluster {}, which is marked free", c, v)));
+            }
         }
     };
     if g.fat_bits == 32 {
